@@ -39,6 +39,7 @@ class Result:
     explanation: str = ""
     assumptions: list = field(default_factory=list)
     notes: list = field(default_factory=list)
+    extra: dict = field(default_factory=dict)
 
     def ok(self, rule, instance, site, qualname, why="", construct=""):
         self.obligations.append(Ob(rule, instance, site, qualname, "ok", why, construct))
@@ -176,6 +177,7 @@ def finish(res: Result, tier: str, t0: float, level: str = "other") -> int:
             "known_findings_matched": [f.get("id") for _, f in knowns],
             "exhaustive": True,
             "notes": res.notes,
+            **res.extra,
         },
         "assumptions": res.assumptions,
         "wall_s": round(time.time() - t0, 3),
